@@ -133,10 +133,10 @@ class Rank:
             a = self.expr(e.left, func, env, tenv, depth + 1)
             b = self.expr(e.right, func, env, tenv, depth + 1)
             if a[0] is None or b[0] is None:
-                # a known array operand dominates a scalar literal
-                for x, y in ((a, b), (b, a)):
-                    if x[0] is not None and x[0] > 0:
-                        return UNK
+                # broadcasting: the result has at least the known rank
+                for x in (a, b):
+                    if x[0] is not None and x[0] != 'tuple' and x[0] > 0:
+                        return (x[0], 'np')
                 return UNK
             r = max(a[0], b[0])
             kind = 'np' if 'np' in (a[1], b[1]) else 'py'
